@@ -128,7 +128,7 @@ def run(rep, tier, seed):
     rep.cov["distinct_nontrivial"] = len({(it["b"], it["ar"], tuple(it["tags"])) for it in items if it["ar"] or not it["tags"]})
     rep.cov["rule"] = ("TLC-enumerated calls (spec/GenCalls.tla): 23 pure builtins at documented arities x 60 boundary "
                        "arguments (all pairs for 2-argument builtins; quick takes every 3rd case), other arities 0..3 "
-                       "with a reduced set; plus seeded random round-trip law programs; distinct = distinct "
+                       "with a reduced set, 13 builtins that are not pure (no crash, result not prescribed); plus seeded random round-trip law programs; container contracts (equal keys of different kinds, pure builtins leave their array alone); distinct = distinct "
                        "(builtin, arity, argument tags)")
     rep.cov["exhaustive"] = False
     for it in items[:1] + items[-1:]:
